@@ -8,8 +8,10 @@ WT=/tmp/seedrepo
 cd /verif
 git -C /repo worktree add -q --detach $WT HEAD || exit 2
 trap 'git -C /repo worktree remove --force $WT 2>/dev/null' EXIT
-git -C $WT apply --check "$PATCH" || { echo "patch does not apply"; exit 2; }
-git -C $WT apply "$PATCH"
+# a seed written against an earlier HEAD (before a later fix: commit touched the same function) is merged three-way
+if git -C $WT apply --check "$PATCH" 2>/dev/null; then git -C $WT apply "$PATCH"
+elif git -C $WT apply --3way "$PATCH" 2>/dev/null; then echo "(patch applied with --3way onto the current HEAD)"
+else echo "patch does not apply"; exit 2; fi
 mkdir -p /verif/build/seed_evidence
 for c in "$@"; do
   cp /verif/evidence/$c.json /verif/build/seed_evidence/$c.clean.json 2>/dev/null
